@@ -661,6 +661,66 @@ def run_case_once(box, sc, stats, patrn):
     stats.case(scenario=sc, nontrivial=nontrivial, classes=classes)
     if v:
         return v + " | " + json.dumps(vlib.jsonable(sc))[:1200]
+    if sc.get("fsel") is not None:
+        vf = fault_run(box, sc, w, evr, stats, patrn, sc["fsel"])
+        if vf:
+            return vf + " | " + json.dumps(vlib.jsonable(sc))[:1200]
+    return None
+
+
+def fault_run(box, sc, w, evr, stats, patrn, fsel):
+    """Single I/O fault on the control file (added by the lead after seeded changes C13-C/D): one failing open() of a .qmail* file that
+    exists (EACCES / ENFILE) or one failing read() from it (EIO) in the delivery agent itself. qmail-local(8)/dot-qmail(5): trouble with the
+    control file is a temporary error - exit 111 and NO effect at all; in particular the search must not fall through to a shorter -default
+    file or to 'no mailbox', and a partially read file must not be executed."""
+    main = lc.main_pid(evr)
+    cnt, fds, sites = {}, {}, []
+    for e in evr:
+        if e["pid"] != main:
+            continue
+        c = e["call"]
+        if c == "open":
+            k = cnt.get("open", 0)
+            cnt["open"] = k + 1
+            path = e["a"][0]
+            if path.startswith(".qmail") and len(e["a"]) > 2 and e["a"][2] not in ("-1",):
+                fds[e["a"][2]] = path
+                sites.append(("open", k, "13", path))
+                sites.append(("open", k, "23", path))
+        elif c == "read":
+            k = cnt.get("read", 0)
+            cnt["read"] = k + 1
+            if e["a"] and e["a"][0] in fds:
+                sites.append(("read", k, "5", fds[e["a"][0]]))
+        elif c == "close" and e["a"] and e["a"][0] in fds:
+            del fds[e["a"][0]]
+        elif c in ("fork", "exec"):
+            break           # instructions start: later faults belong to the deliveries (C12)
+    if not sites:
+        return None
+    cls, k, err, path = sites[fsel % len(sites)]
+    box.reset()
+    populate(box, w)
+    before = lc.tree_listing(box.home)
+    rc, out, errb, t0, t1 = box.run(box.argv(w.user, w.local, w.dash, w.ext, w.host, w.sender, w.dd),
+                                    box.env(qq_exit=sc.get("qq", 0), VSHIM_FAULT="loc:%s:%d:%s" % (cls, k, err), VSHIM_FAULT_GEN="0"))
+    if rc is None:
+        stats.inconclusive += 1
+        return None
+    ev = box.h.read_trace()
+    if not any(e["a"] and e["a"][-1] == "FAULT" for e in ev):
+        stats.cls("fault_not_reached")
+        return None
+    stats.case(scenario={"base": vlib.digest(sc)[:12], "fault": [cls, k, err, path]}, nontrivial=True, classes=["fault_%s_control_file" % cls],
+               key=(vlib.digest(sc), cls, k, err))
+    if rc != 111:
+        return "a failing %s() (errno %s) on the control file %s ends in exit %r, documented: temporary error 111" % (cls, err, path, rc)
+    after = lc.tree_listing(box.home)
+    if after != before:
+        diff = sorted(set(after.items()) ^ set(before.items()))[:4]
+        return "a failing %s() on the control file %s was reported as 111 but the delivery had effects: %r" % (cls, path, diff)
+    if lc.qq_records(box) if hasattr(lc, "qq_records") else False:
+        return "a failing %s() on the control file %s: a message was forwarded nevertheless" % (cls, path)
     return None
 
 
@@ -815,6 +875,7 @@ def scenario(draw):
                                  st.text(alphabet=st.characters(min_codepoint=1, max_codepoint=255), max_size=12))),
         "dd": draw(dd_st), "msg": draw(msg_st),
         "qq": draw(st.sampled_from([0] * 12 + [31, 53, 11, 91])),
+        "fsel": draw(st.one_of(st.none(), st.none(), st.integers(0, 1000))),
     }
 
 
